@@ -46,6 +46,7 @@ type Engine struct {
 	atLike             map[*ssa.Function]int // 0 unknown, 1 exact, 2 case-insensitive, -1 not an at-like function
 	steps              int
 	maxSteps           int
+	stackCtx           []string // per frame of stack: the function values the frame was called with
 	aborted            string
 	stack              []*ssa.Function
 	entryFn            *ssa.Function
@@ -509,8 +510,16 @@ func (e *Engine) run(fn *ssa.Function, entry *State, args []AbsVal) []exitState 
 	if len(fn.Blocks) == 0 {
 		return []exitState{{st: entry}}
 	}
-	for _, f := range e.stack {
-		if f == fn {
+	// a combinator applied to different scanner functions (backtrack(consumeA) inside consumeB run by backtrack) is not
+	// a recursion: the frames are told apart by the function values they were called with
+	ctx := ""
+	for i := range fn.Params {
+		if i < len(args) && args[i].k == vFunc && args[i].fn != nil {
+			ctx += "|" + args[i].fn.String()
+		}
+	}
+	for i, f := range e.stack {
+		if f == fn && (i >= len(e.stackCtx) || e.stackCtx[i] == ctx) {
 			e.undecided(entry, "R-CURSOR", "recursion "+fnLabel(fn), fn.Pos(), "recursive cursor client: the engine analyses acyclic lexer call graphs only")
 			entry.havocCursor()
 			return []exitState{{st: entry, ret: e.topResults(fn)}}
@@ -520,6 +529,10 @@ func (e *Engine) run(fn *ssa.Function, entry *State, args []AbsVal) []exitState 
 		e.aborted = "call depth exceeded in " + fnLabel(fn)
 		return nil
 	}
+	for len(e.stackCtx) < len(e.stack) {
+		e.stackCtx = append(e.stackCtx, "")
+	}
+	e.stackCtx = append(e.stackCtx[:len(e.stack)], ctx)
 	e.stack = append(e.stack, fn)
 	defer func() { e.stack = e.stack[:len(e.stack)-1] }()
 	if engDebug {
